@@ -133,6 +133,10 @@ def finish(pid, tier, seed, level, t0, proofs, coverage, violations, assumptions
             print("VIOLATION property=%s replay=%s%s" % (pid, path, "" if v.found_input else " no-failing-input-found"))
             print("  " + v.what[:300])
         rc = 1
+    # every listed finding of this property is named on every run; those this run's inputs did not reach are marked
+    for k in known:
+        if k.get("status") == "known" and k.get("property") == pid and k.get("what", "") not in shown:
+            print("KNOWN-FINDING: property=%s %s [listed; not re-observed by this run's inputs]" % (pid, k.get("what", ""))); shown.add(k.get("what", ""))
     cov = dict(coverage)
     cov.update(dict(obligations=proofs["obligations"], discharged=proofs["discharged"],
                     checker_cmd="cd coq && make Properties_%s.vo (coqc 8.16.1, full .vo build) ; coqc Print Assumptions ; tools/check %s" % (pid, pid),
